@@ -122,6 +122,7 @@ theorem c08_locked_history (s : State) (now : Nat) (p : Bytes) (ops : List Op)
       | uAdd _ => simp [clientOp] at hop
       | uRemove _ => simp [clientOp] at hop
       | uRemoveAll => simp [clientOp] at hop
+      | forward req => simp [step, hc, noFaults]   -- relayed, nothing in the shim changes
       | _ => simp [step, hl]
     simp only [runOps, hstep]
     exact ih (fun o ho => hops o (List.mem_cons_of_mem _ ho))
